@@ -82,8 +82,15 @@ def run_check(prop: str, tier: str, verif_seed: int, runs: int | None, shrink_en
             from . import gen_sched
 
             extra = gen_sched.cross_device(results)
+        if prop in ("C11", "C09", "C10", "C12"):
+            fid = fidelity_phase(pools, prop, verif_seed, {"C11": 16, "C09": 10, "C10": 6, "C12": 6}[prop] * (1 if tier == "quick" else 12), known)
+            extra.setdefault("violations", []).extend(fid.pop("violations"))
+            for k, v in fid.pop("known").items():
+                extra.setdefault("known", {})[k] = extra.setdefault("known", {}).get(k, 0) + v
+            extra["harness_errors"] = extra.get("harness_errors", 0) + fid.pop("harness_errors")
+            extra["x_fidelity_real_lifetimes"] = fid
         # determinism slice: re-execute a few cases, histories must be identical
-        det = determinism_slice(pools, prop, results, k=4 if tier == "quick" else 12)
+        det = determinism_slice(pools, prop, results, k=24 if tier == "quick" else 120)
         rc = finish(prop, tier, verif_seed, results, extra, det, known, pools, t0, shrink_enabled)
     finally:
         pools.shutdown()
@@ -92,6 +99,42 @@ def run_check(prop: str, tier: str, verif_seed: int, runs: int | None, shrink_en
         except Exception:
             pass
     return rc
+
+
+def fidelity_phase(pools, prop, verif_seed, k, known):
+    """In-process simulation versus real fresh processes + real SIGKILL on the same plans."""
+    from .check import split_known
+
+    futs = []
+    for i in range(k):
+        s = P.run_seed(prop + "-fidelity", verif_seed, i)
+        futs.append((s, pools.submit_custom(P.devices_for(prop, s), "mdpsim.cases.run_fidelity", prop, s)))
+    out = {"plans": 0, "agreed": 0, "real_sigkills": 0, "real_lifetimes": 0, "skipped": 0, "violations": [], "known": {}, "harness_errors": 0, "errors": []}
+    for s, f in futs:
+        try:
+            r = f.result(timeout=900)
+        except BaseException as e:  # noqa: BLE001
+            r = {"verdict": "harness_error", "error": f"worker failed: {e}"}
+        if r["verdict"] == "skipped":
+            out["skipped"] += 1
+            continue
+        out["plans"] += 1
+        if r["verdict"] == "harness_error":
+            out["harness_errors"] += 1
+            out["errors"].append(str(r.get("error"))[:800])
+            print(f"HARNESS-ERROR fidelity seed={s}: {str(r.get('error'))[:1200]}")
+            continue
+        out["agreed"] += 1
+        out["real_sigkills"] += r.get("real_kills", 0)
+        out["real_lifetimes"] += r.get("lifetimes", 0)
+        if r["verdict"] == "violation":
+            real, kn = split_known(prop, r["violations"], known)
+            for v, kk in kn:
+                out["known"][kk["id"]] = out["known"].get(kk["id"], 0) + 1
+            if real:
+                r["devices"] = r["plan"].get("devices", 1)
+                out["violations"].append((r, real))
+    return out
 
 
 def determinism_slice(pools, prop, results, k):
